@@ -4,7 +4,8 @@ package ledger
 
 // C23 — application storage accounting matches stored state (model lean/AlgoVerif/Model/AppStorage.lean, driver `c23`).
 //
-// A real Ledger (in-memory DB, ConsensusFuture) is created per case; for every block a real BlockEvaluator is started with
+// A real Ledger (on-disk sqlite in t.TempDir(), ConsensusFuture; generated cases share one ledger for up to 60 cases — opening
+// one costs seconds — a replay always starts on a fresh one) is used; for every block a real BlockEvaluator is started with
 // a tracer; every generated transaction group is fed to the real eval.TransactionGroup.  Application calls carry EFFECT
 // SCRIPTS which this harness compiles into straight-line TEAL (one opcode per effect, see c23Teal) and installs as the
 // approval program of the called application (by an UpdateApplication transaction in a preparatory group; the installed
@@ -24,7 +25,7 @@ package ledger
 // Ordinals that name no application map to an id that does not exist.
 //
 // Op grammar:
-//   reset                          fresh ledger                                                    → ok
+//   reset                          new case: fresh applications (fresh ledger on replay)            → ok
 //   block                          end the running block if any, start the next one               → ok
 //   group T;T;…                    one transaction group                                           → CLS[@i] L=… D=dirty/budget I=ok | DUMP
 //   endblock                       GenerateBlock + Validate + AddValidatedBlock                    → end | DUMP (committed ledger)
@@ -1553,7 +1554,7 @@ func TestVerifC23(t *testing.T) {
 		return
 	}
 	g := &c23Gen{r: vh.NewRng(vh.Seed()*1000003 + 23), h: h}
-	cases := vh.Budget(120, 6000)
+	cases := vh.Budget(250, 6000)
 	if os.Getenv("VERIF_C23_CASES") != "" {
 		cases = int(vh.U(os.Getenv("VERIF_C23_CASES")))
 	}
